@@ -48,15 +48,35 @@ def build(case):
     b = ift.ScalingOperator(d, 1.).ducktape("b")
     op = a.exp() * b if case.get("model", "expmul") == "expmul" else (a + b).exp()
     data = ift.Field.from_raw(d, np.array(case["data"], dtype=np.float64))
-    lh = ift.GaussianEnergy(data, ift.ScalingOperator(d, float(case["icov"]), np.float64)) @ op
-    ic = ift.AbsDeltaEnergyController(0.1, iteration_limit=int(case.get("cg_limit", 3)))
-    mini = ift.NewtonCG(ift.AbsDeltaEnergyController(0.1, iteration_limit=int(case.get("newton_limit", 3))))
+    lh0 = ift.GaussianEnergy(data, ift.ScalingOperator(d, float(case["icov"]), np.float64))
+    lh = lh0 @ op
+    if case.get("grow_at") is not None:
+        # domain expansion: the latent key "b" (and, with "grow2_at", a third key "c") enters the
+        # likelihood at a later iteration; its start values are drawn by _normal_initialize then
+        k1 = int(case["grow_at"])
+        k2 = case.get("grow2_at")
+        small = lh0 @ a.exp()
+        big = lh
+        c = ift.ScalingOperator(d, 0.5).ducktape("c")
+        bigger = lh0 @ (op + c.tanh())
+        lh = (lambda i, k1=k1, k2=k2: small if i < k1 else (big if (k2 is None or i < int(k2)) else bigger))
+    cgl = case.get("cg_limit", 3)
+    nwl = case.get("newton_limit", 3)
+    # the sampling controller and the KL minimiser may change from iteration to iteration
+    ic = (lambda i: ift.AbsDeltaEnergyController(0.1, iteration_limit=int(cgl[min(i, len(cgl) - 1)]))) if isinstance(cgl, list) \
+        else ift.AbsDeltaEnergyController(0.1, iteration_limit=int(cgl))
+    mini = (lambda i: ift.NewtonCG(ift.AbsDeltaEnergyController(0.1, iteration_limit=int(nwl[min(i, len(nwl) - 1)])))) if isinstance(nwl, list) \
+        else ift.NewtonCG(ift.AbsDeltaEnergyController(0.1, iteration_limit=int(nwl)))
     nl = None
     if case.get("geovi", False):
         nl = ift.NewtonCG(ift.AbsDeltaEnergyController(0.1, iteration_limit=2))
     pos0 = ift.MultiField.from_dict({"a": ift.full(d, float(case["pos_a"])), "b": ift.full(d, float(case["pos_b"]))})
     ns = case["n_samples"]
     fresh = case.get("fresh", True)
+    if case.get("init_none", False):
+        pos0 = None                      # start values of every latent key are drawn in iteration 0
+    elif case.get("grow_at") is not None:
+        pos0 = ift.MultiField.from_dict({"a": ift.full(d, float(case["pos_a"]))})
     kw = dict(nonlinear_sampling_minimizer=nl, initial_position=pos0, save_strategy=case["strategy"],
               return_final_position=True, plot_energy_history=False, plot_minisanity_history=False,
               fresh_stochasticity=(lambda i: fresh[min(i, len(fresh) - 1)]) if isinstance(fresh, list) else fresh)
